@@ -6,14 +6,24 @@ CHECK = {'rule': '(files) rapid-generated template file sets (helpers, 1-3 layou
          '>=2 distinct views requested and >=1 name defined in >=2 layers of a requested helpers/layout/view chain. (conc) one provider kind and '
          'cache mode, 4-16 goroutines issuing generated request plans against fresh providers (20-50 providers per case when cached) inside a child '
          'process; the parent requires exit without crash and every template every goroutine got to equal the model. Non-trivial: >=2 keys asked for '
-         'by >=2 goroutines. Distinct = distinct case JSON (FNV-64).',
- 'assumptions': ['template files are syntactically valid, non-empty, define each name at most once per layer (file order inside a layer is not fixed '
+         'by >=2 goroutines. (loose, consistency-only) file sets with BROKEN matching files (syntax error, empty file) and/or several files of one layer '
+         'defining the same name or carrying top-level text; no winner and no particular error is modelled: every request is asked three times of a '
+         'cached and an uncached provider and (third ask) of two fresh providers over the same filespace, per provider kind all observations '
+         '(request failed / defined names + rendering of every name and of the template) must be identical, no call may panic or return neither '
+         'template nor error, and requests whose chain touches no broken/ambiguous layer must equal the model. 25% of the conc cases carry a layout '
+         'with a broken file: all callers must observe the same outcome for it. Non-trivial (loose): >=2 requests, >=1 touching a broken or '
+         'ambiguous layer. Distinct = distinct case JSON (FNV-64).',
+ 'assumptions': ['kinds files/conc (model clauses): template files are syntactically valid, non-empty, define each name at most once per layer (file order inside a layer is not fixed '
                  'by the statement) and have non-blank bodies (text/template documents that a blank redefinition does not replace)',
                  'no view/layout directory nested inside another view/layout directory',
                  'html: templates the model expects to fail (they reach an undefined name) are not executed, html/template cuts such trees and may '
                  'panic afterwards',
                  'a child process that neither crashes nor finishes within its watchdog is inconclusive (the statement promises no crash and '
                  'equivalence, not progress)',
+                 'kind loose: which error a broken file produces, whether a request touching it fails, and which same-layer duplicate wins are NOT '
+                 'asserted, only that the outcome is the same on every ask, with caching on and off and for a fresh provider over the same filespace '
+                 '(the unchanged code is deterministic given the filespace listing order); html is compared with html, text with text; bodies are '
+                 'literals/func calls only (no {{template}} calls)',
                  'memfs filespace; default path patterns and extensions of goathtml/goattext'],
  'essential_labels': {'all': ['view-overrides-layout',
                               'layout-overrides-helper',
@@ -29,16 +39,27 @@ CHECK = {'rule': '(files) rapid-generated template file sets (helpers, 1-3 layou
                               'default-alias',
                               'conc-html-cached',
                               'conc-text-cached',
-                              'conc-goroutines>=8']},
+                              'conc-goroutines>=8',
+                              'conc-broken-layout',
+                              'loose-broken-syntax',
+                              'loose-broken-empty',
+                              'loose-broken-layout',
+                              'loose-dup-name',
+                              'loose-multi-top',
+                              'loose-req-touches-broken',
+                              'loose-req-touches-duplicate',
+                              'loose-req-clean-modelled']},
  'tiers': {'quick': [{'test': '^TestProp$', 'checks': 400, 'shards': 8, 'timeout': 240},
-                     {'test': '^TestPropConc$', 'checks': 12, 'shards': 4, 'timeout': 240, 'seed_offset': 500}],
+                     {'test': '^TestPropConc$', 'checks': 12, 'shards': 4, 'timeout': 240, 'seed_offset': 500},
+                     {'test': '^TestPropLoose$', 'checks': 250, 'shards': 4, 'timeout': 240, 'seed_offset': 900}],
            'thorough': [{'test': '^TestProp$', 'checks': 10000, 'shards': 16, 'timeout': 3000},
-                        {'test': '^TestPropConc$', 'checks': 40, 'shards': 16, 'timeout': 3000, 'seed_offset': 500}]}}
+                        {'test': '^TestPropConc$', 'checks': 40, 'shards': 16, 'timeout': 3000, 'seed_offset': 500},
+                        {'test': '^TestPropLoose$', 'checks': 3000, 'shards': 16, 'timeout': 3000, 'seed_offset': 900}]}}
 
 TEXT = {'technique': 'model-based + differential property testing (rapid): generated template file sets and request sequences against a pure layering model '
               'over {html,text}x{cached,uncached}; generated concurrent request plans executed in a child process (exit status + per-caller model '
               'comparison)',
- 'level_text': 'Exploration: 3 200 generated file sets x 4 providers and 48 child processes (~1 400 concurrently used providers) per quick run; 160 '
+ 'level_text': 'Exploration: 3 200 generated file sets x 4 providers, 1 000 consistency-only file sets (broken files, same-layer duplicates) x 8 providers and 48 child processes (~1 400 concurrently used providers) per quick run; 208 '
                '640 cases in thorough. The layering model is cross-checked against html/template and text/template on every case. Concurrency is '
                'sampled (4-16 goroutines, GOMAXPROCS 2-16), not enumerated.',
  'level_note': 'Trusts the layering model in props/c19 (cross-checked against the stdlib template engines). The crash clause relies on the Go '
